@@ -86,12 +86,14 @@ def explore_instance(data, cfg, bufsize, end, want, acc, merge=True):
         outcomes.add(tuple(x[0] for x in r.items))
         for key, detail in out:
             viol.append((key, detail, list(ch.choices)))
+        if len(viol) >= 8:
+            return "stop"  # a violating instance need not be explored to the end
 
     st = engine.explore(run, merge=merge, on_exec=on_exec, max_exec=MAX_EXEC_PER_INSTANCE)
     return st, viol, outcomes
 
 
-MAX_EXEC_PER_INSTANCE = 30000  # never reached on a wrapper that honours read(n); guards against state explosion under a broken one
+MAX_EXEC_PER_INSTANCE = 20000  # never reached on a wrapper that honours read(n); guards against state explosion under a broken one
 _FILE = {}
 
 
@@ -103,16 +105,25 @@ def file_items(data, cfg):
 
 
 def do_instance(data, cfg, bufsize, end, acc):
+    if acc.extra["violating_instances"] >= 12:
+        # this block has already established a violation many times over; exploring a broken wrapper further
+        # only costs time (its state space may be unbounded)
+        acc.extra["instances_skipped_after_violations"] += 1
+        if not any("skipped after" in c for c in acc.caps):
+            acc.caps.append("instances skipped after 12 violating instances in a block")
+        return
     want = file_items(data, cfg)
     st, viol, outcomes = explore_instance(data, cfg, bufsize, end, want, acc)
     acc.evaluations += st["executions"]
     acc.transitions += st["executions"]
     acc.nstates += st["states"]
     acc.extra["instances"] += 1
-    if st["capped"]:
+    if st["capped"] and not st.get("stopped_by_caller"):
         acc.caps.append(f"instance stream={data.hex()[:24]}.. bufsize={bufsize} end={end}: capped at {MAX_EXEC_PER_INSTANCE} executions")
     acc.extra["complete_executions"] += st["executions"] - st["pruned"]
     acc.outcomes[(len(want), min(len(data), 40) // 8, bufsize)] += 1
+    if viol:
+        acc.extra["violating_instances"] += 1
     for key, detail, choices in viol:
         acc.violation(key, {"stream": data.hex(), "cfg": cfg, "bufsize": bufsize, "end": end, "choices": choices}, detail)
     if len(data) <= 10:
@@ -121,7 +132,12 @@ def do_instance(data, cfg, bufsize, end, acc):
         acc.extra["unmerged_crosscheck_instances"] += 1
         acc.extra["unmerged_crosscheck_executions"] += st2["executions"]
         if outcomes2 != outcomes or {v[0] for v in viol2} != {v[0] for v in viol}:
-            raise engine.Broken(f"state merging changed the outcome set for {data.hex()} bufsize={bufsize} end={end}")
+            if not viol and not viol2:
+                raise engine.Broken(f"state merging changed the outcome set for {data.hex()} bufsize={bufsize} end={end}")
+            # the two explorations of the same instance disagree and at least one of them violates the oracle:
+            # behaviour depends on something beyond the byte sequence and its segmentation (report what was seen)
+            for key, detail, choices in viol2:
+                acc.violation(key, {"stream": data.hex(), "cfg": cfg, "bufsize": bufsize, "end": end, "choices": choices}, detail)
 
 
 def replay_case(case):
